@@ -8,8 +8,7 @@ open Spec
 
 /-- what the property text demands of the regenerated constants: the header and parameter names,
 the thirteen method names, and the statuses of the not-routed branches (404 for an unknown
-sub-resource, 400 for the rest). The status of an invalid key segment is deliberately absent: the
-code answers 404 there (finding F20), and the theorems that need 400 carry a guard instead. -/
+sub-resource, 400 for the rest). -/
 structure Tied (C : Consts) : Prop where
   methodHeader : C.methodHeader = "X-RestLi-Method"
   mapping : mappingEntries C = Spec.methodTable
@@ -17,9 +16,12 @@ structure Tied (C : Consts) : Prop where
   paramAction : C.paramAction = "action"
   paramIds : C.paramIds = "ids"
   stUnknownSub : C.stUnknownSub = 404
+  stInvalidSegment : C.stInvalidSegment = 400
+  stInvalidQuery : C.stInvalidQuery = 400
   stPostNeedsHeader : C.stPostNeedsHeader = 400
   stNoEntity : C.stNoEntity = 400
   stEntityForbidden : C.stEntityForbidden = 400
+  stEntityOnSimple : C.stEntityOnSimple = 400
   stNoFinder : C.stNoFinder = 400
   stNoAction : C.stNoAction = 400
   stNoMethod : C.stNoMethod = 400
@@ -293,13 +295,43 @@ theorem locateAt_node_ok (n : Node) (rest : List String) (t : Target) (h : locat
       simpa [Target.under] using ih (findSub_ok x n.subs (nodeOk_subs n hn) sub hf))
     rest.length rest (Nat.le_refl _) n t h
 
+/-- what the walk returns when the path names a resource: the resource, unless one of the keys on the
+way is malformed -/
+theorem walk_some (C : Consts) (V : String → Bool) (n : Node) (rest : List String) (t : Target)
+    (h : locateAt n rest = some t) :
+    ∀ (rp : List Seg) (ks : List String) (x : String),
+      walk C V n rp ks (x :: rest) =
+        if t.keys.all V then .found t.node (rp ++ t.rpath) (ks ++ t.keys) t.hasKey else .err C.stInvalidSegment :=
+  locateAt_ind
+    (fun n rest t => ∀ (rp : List Seg) (ks : List String) (x : String),
+      walk C V n rp ks (x :: rest) =
+        if t.keys.all V then .found t.node (rp ++ t.rpath) (ks ++ t.keys) t.hasKey else .err C.stInvalidSegment)
+    (fun n rp ks x => by cases hc : n.isCollection <;> simp [walk, hc])
+    (fun n k hc rp ks x => by
+      cases hv : V k <;> simp [walk, hc, hv])
+    (fun n k s rest sub t hc hf _ ih rp ks x => by
+      cases hv : V k
+      · simp [walk, hc, hv, Target.under]
+      · simp only [walk, hc, if_true, hv, Bool.not_true, Bool.false_eq_true, if_false, hf, ih]
+        simp [Target.under, hv])
+    (fun n a rest sub t hc hf _ ih rp ks x => by
+      cases rest with
+      | nil =>
+        rw [walk.eq_3]
+        simp only [hc, Bool.false_eq_true, if_false, hf, ih]
+        simp [Target.under]
+      | cons b rest' =>
+        rw [walk.eq_4]
+        simp only [hc, Bool.false_eq_true, if_false, hf, ih]
+        simp [Target.under])
+    rest.length rest (Nat.le_refl _) n t h
+
 /-! ## `receive` after the walk, against the specification's table -/
 
 /-- the decision a `Resolved` stands for -/
 def Resolved.decision (C : Consts) : Resolved → Decision
   | .ok f _ => .routed f
   | .errResp st => .reject st
-  | .rawErr => .reject C.stPlainError
 
 /-- `routed f` or `reject 400` -/
 def admitOr400 : Option Facts → Decision
@@ -319,7 +351,6 @@ def actionLevelOk (t : Target) (act : Option String) : Prop :=
 
 @[simp] theorem decision_ok (C : Consts) (f : Facts) (k : Bool) : (Resolved.ok f k).decision C = .routed f := rfl
 @[simp] theorem decision_errResp (C : Consts) (st : Nat) : (Resolved.errResp st).decision C = .reject st := rfl
-@[simp] theorem decision_rawErr (C : Consts) : Resolved.rawErr.decision C = .reject C.stPlainError := rfl
 @[simp] theorem admitOr400_some (f : Facts) : admitOr400 (some f) = .routed f := rfl
 @[simp] theorem admitOr400_none : admitOr400 none = .reject 400 := rfl
 
@@ -467,13 +498,7 @@ theorem resolveWith_eq (C : Consts) (hC : Tied C) (t : Target) (verb : Verb) (hd
         simp [inferMethod, methodFor, finish, checkEntity, needsEntity, forbidsEntity,
           lookupHandler_plain C hC, hu']
 
-/-! ## guards for the confirmed findings, as decidable predicates -/
-
-/-- (finding F7) every query value passes `ValidateRor2Input` -/
-def queryValid (V : String → Bool) (req : Req) : Bool := req.query.all fun kv => V kv.2
-
-/-- (finding F20) every path segment passes `ValidateRor2Input` -/
-def keysValid (V : String → Bool) (req : Req) : Bool := req.path.all V
+/-! ## the guard for the one remaining finding, as a decidable predicate -/
 
 /-- (finding "entity presence unchecked for actions") if the request asks for a registered action,
 the presence of an entity key matches the level the action was registered at -/
@@ -514,13 +539,12 @@ theorem dup_le_one (req : Req) (h : duplicateReserved req = false) (name : Strin
   · exact h.2.2
 
 /-- the model's decision is the specification's, on every request the text determines and outside
-the three findings -/
+the action-level finding -/
 theorem route_eq_decide (C : Consts) (hC : Tied C) (V : String → Bool) (roots : List Node) (req : Req)
     (hroots : nodesOk roots = true)
-    (hqv : queryValid V req = true) (hkv : keysValid V req = true)
     (hact : actionLevelMatches roots req = true)
     (hs1 : unknownHeaderValue req = false) (hs2 : emptyReservedValue req = false)
-    (hs3 : duplicateReserved req = false)
+    (hs3 : duplicateReserved req = false) (hs5 : malformedAndUnknown V roots req = false)
     (hs4 : ∀ t, locate roots req.path = some t → otherVerbWithHeaderOnSimple t req = false ∧ keyAndIds t req = false) :
     route C V roots req = Spec.decide V roots req := by
   cases hp : req.path with
@@ -529,72 +553,80 @@ theorem route_eq_decide (C : Consts) (hC : Tied C) (V : String → Bool) (roots 
     cases hf : findSub s roots with
     | none => simp [route, routeX, Spec.decide, locate, hp, hf, Consts.stRootNotFound]
     | some sub =>
-      have hvall : ∀ x ∈ rest, V x = true := by
-        intro x hx
-        have := List.all_eq_true.mp hkv x (by rw [hp]; exact List.mem_cons_of_mem _ hx)
-        exact this
-      have hw := walk_eq_aux C hC V rest.length rest (Nat.le_refl _) sub [] [] s hvall
       cases hl : locateAt sub rest with
       | none =>
+        -- an unknown sub-resource; by `hs5` no segment is malformed
+        have hloc : locate roots req.path = none := by simp [locate, hp, hf, hl]
+        have hall : req.path.all V = true := by
+          simpa [malformedAndUnknown, hloc] using hs5
+        have hvall : ∀ x ∈ rest, V x = true := by
+          intro x hx
+          exact List.all_eq_true.mp hall x (by rw [hp]; exact List.mem_cons_of_mem _ hx)
+        have hw := walk_eq_aux C hC V rest.length rest (Nat.le_refl _) sub [] [] s hvall
         simp only [hl, locatedOf] at hw
         simp [route, routeX, Spec.decide, locate, hp, hf, hw, hl]
       | some t =>
-        simp only [hl, locatedOf, List.nil_append] at hw
-        rw [route_eq_resolve C V roots req s rest sub hp hf _ _ _ _ hw]
+        have hw := walk_some C V sub rest t hl [] [] s
         have hloc : locate roots req.path = some t := by simp [locate, hp, hf, hl]
-        have hkeys : t.keys.all V = true := by
-          rw [List.all_eq_true]; intro k hk
-          exact hvall k (locateAt_keys_mem sub rest t hl k hk)
-        have hok : nodeOk t.node = true := locateAt_node_ok sub rest t hl (findSub_ok s roots hroots sub hf)
-        have hsimple := locateAt_simple_nokey sub rest t hl
-        -- the specification side
-        have hdec : Spec.decide V roots req = specTail t req.verb (methodHeader req) (param "q" req) (param "action" req)
-            (param "ids" req).isSome := by
-          have hqv' : (req.query.all fun kv => V kv.2) = true := hqv
-          simp only [Spec.decide, hloc, hkeys, hqv', Bool.not_true, Bool.or_self, Bool.false_eq_true, if_false,
-            specTail, methodOf, admitted]
-          cases methodFor t.node.isCollection t.hasKey req.verb (methodHeader req) (param "q" req).isSome
-            (param "ids" req).isSome (param "action" req).isSome with
-          | none => rfl
-          | some m => cases admittedWith t m (param "q" req) (param "action" req) <;> rfl
-        rw [hdec]
-        -- the model side
-        have hqv' : (req.query.all fun kv => V kv.2) = true := hqv
-        have hm0 : nameMapping C ((req.headers.lookup C.methodHeader).getD "") =
-            ((methodHeader req).bind methodNamed).getD .unknown := by
-          rw [nameMapping_eq C hC, hC.methodHeader]
-          unfold methodHeader
-          cases List.lookup "X-RestLi-Method" req.headers with
-          | none => simp [methodNamed_empty]
-          | some h => simp
-        simp only [resolve, hqv', Bool.not_true, Bool.false_eq_true, if_false, hm0, hC.paramFinder,
-          hC.paramAction, hC.paramIds,
-          param_eq_lookupLast req "q" (dup_le_one req hs3 "q" (Or.inl rfl)),
-          param_eq_lookupLast req "action" (dup_le_one req hs3 "action" (Or.inr (Or.inr rfl))),
-          param_eq_lookupLast req "ids" (dup_le_one req hs3 "ids" (Or.inr (Or.inl rfl)))]
-        have hs4' := hs4 t hloc
-        apply resolveWith_eq C hC t req.verb (methodHeader req) (param "q" req) (param "action" req)
-          (param "ids" req).isSome hok hsimple
-        · -- the header, if any, is one of the thirteen names
-          intro h hh
-          simp only [unknownHeaderValue, hh] at hs1
-          intro hn; simp [hn] at hs1
-        · intro h; simp [emptyReservedValue, h] at hs2
-        · intro h; simp [emptyReservedValue, h] at hs2
-        · intro hc hv
-          have := hs4'.1
-          simp only [otherVerbWithHeaderOnSimple, hc, hv, Bool.not_false, beq_self_eq_true, Bool.true_and,
-            Option.isSome_eq_false_iff, Option.isNone_iff_eq_none] at this
-          exact this
-        · intro hc hh hv hk
-          have := hs4'.2
-          simp only [keyAndIds, hc, hh, Option.isNone_none, Bool.true_and, hk, Bool.and_true] at this
-          rcases hv with hv | hv <;> simpa [hv] using this
-        · intro hm name e hname hlook
-          have hm' : methodOf t req = some .action := by
-            simp only [methodOf, hname, Option.isSome_some] at hm ⊢; exact hm
-          simp only [actionLevelMatches, hloc, hm', beq_self_eq_true, if_true, hname, hlook] at hact
-          simpa using hact
+        by_cases hkeys : t.keys.all V = true
+        · simp only [hkeys, if_true, List.nil_append] at hw
+          rw [route_eq_resolve C V roots req s rest sub hp hf _ _ _ _ hw]
+          have hok : nodeOk t.node = true := locateAt_node_ok sub rest t hl (findSub_ok s roots hroots sub hf)
+          have hsimple := locateAt_simple_nokey sub rest t hl
+          by_cases hqv : (req.query.all fun kv => V kv.2) = true
+          · -- the specification side
+            have hdec : Spec.decide V roots req = specTail t req.verb (methodHeader req) (param "q" req) (param "action" req)
+                (param "ids" req).isSome := by
+              simp only [Spec.decide, hloc, hkeys, hqv, Bool.not_true, Bool.or_self, Bool.false_eq_true, if_false,
+                specTail, methodOf, admitted]
+              cases methodFor t.node.isCollection t.hasKey req.verb (methodHeader req) (param "q" req).isSome
+                (param "ids" req).isSome (param "action" req).isSome with
+              | none => rfl
+              | some m => cases admittedWith t m (param "q" req) (param "action" req) <;> rfl
+            rw [hdec]
+            -- the model side
+            have hm0 : nameMapping C ((req.headers.lookup C.methodHeader).getD "") =
+                ((methodHeader req).bind methodNamed).getD .unknown := by
+              rw [nameMapping_eq C hC, hC.methodHeader]
+              unfold methodHeader
+              cases List.lookup "X-RestLi-Method" req.headers with
+              | none => simp [methodNamed_empty]
+              | some h => simp
+            simp only [resolve, hqv, Bool.not_true, Bool.false_eq_true, if_false, hm0, hC.paramFinder,
+              hC.paramAction, hC.paramIds,
+              param_eq_lookupLast req "q" (dup_le_one req hs3 "q" (Or.inl rfl)),
+              param_eq_lookupLast req "action" (dup_le_one req hs3 "action" (Or.inr (Or.inr rfl))),
+              param_eq_lookupLast req "ids" (dup_le_one req hs3 "ids" (Or.inr (Or.inl rfl)))]
+            have hs4' := hs4 t hloc
+            apply resolveWith_eq C hC t req.verb (methodHeader req) (param "q" req) (param "action" req)
+              (param "ids" req).isSome hok hsimple
+            · intro h hh
+              simp only [unknownHeaderValue, hh] at hs1
+              intro hn; simp [hn] at hs1
+            · intro h; simp [emptyReservedValue, h] at hs2
+            · intro h; simp [emptyReservedValue, h] at hs2
+            · intro hc hv
+              have := hs4'.1
+              simp only [otherVerbWithHeaderOnSimple, hc, hv, Bool.not_false, beq_self_eq_true, Bool.true_and,
+                Option.isSome_eq_false_iff, Option.isNone_iff_eq_none] at this
+              exact this
+            · intro hc hh hv hk
+              have := hs4'.2
+              simp only [keyAndIds, hc, hh, Option.isNone_none, Bool.true_and, hk, Bool.and_true] at this
+              rcases hv with hv | hv <;> simpa [hv] using this
+            · intro hm name e hname hlook
+              have hm' : methodOf t req = some .action := by
+                simp only [methodOf, hname, Option.isSome_some] at hm ⊢; exact hm
+              simp only [actionLevelMatches, hloc, hm', beq_self_eq_true, if_true, hname, hlook] at hact
+              simpa using hact
+          · -- a malformed query value: 400 on both sides
+            have hqv' : (req.query.all fun kv => V kv.2) = false := by simpa using hqv
+            simp [resolve, hqv', Spec.decide, hloc, hkeys, hC.stInvalidQuery]
+        · -- a malformed key on the way: 400 on both sides
+          have hkeys' : t.keys.all V = false := by simpa using hkeys
+          simp only [hkeys', Bool.false_eq_true, if_false] at hw
+          have hloc' : locate roots (s :: rest) = some t := hp ▸ hloc
+          simp [route, routeX, hp, hf, hw, Spec.decide, hloc', hkeys', hC.stInvalidSegment]
 
 /-! ## filters and the resource call: the shape of the event list -/
 
@@ -716,9 +748,10 @@ theorem runPost_none (fs : List FilterKind) (seen : List Nat) (h : fs.any (· ==
   rw [this, indexed_snd]; exact h
 
 /-- the resource method is reached once the filters let the request through: the closure's decoding
-succeeds and (finding: entity presence unchecked for actions) its path decoder finds the key it reads -/
+succeeds, which for an action includes that the number of entity keys is the one its level needs
+(finding: `receive` does not check entity presence for actions, the generated path decoder does) -/
 def reaches (f : Facts) (ownKey hasEntity : Bool) (req : Req) : Bool :=
-  !(f.method = .action && ownKey && !hasEntity) && req.decodes.contains f.method
+  !(f.method = .action && ownKey != hasEntity) && req.decodes.contains f.method
 
 /-- the events of a routed request, whatever fails on the way -/
 theorem serveSegs_routed_shape (C : Consts) (V : String → Bool) (h : Handler) (req : Req)
@@ -752,15 +785,15 @@ theorem serveSegs_routed_shape (C : Consts) (V : String → Bool) (h : Handler) 
   | none =>
     have hkn' : k = h.filters.length := hkn rfl
     simp only
-    by_cases hpanic : (f.method = .action && ownKey && !hasEntity) = true
-    · -- the generated-style path decoder panics: recovered
+    by_cases hpanic : (f.method = .action && ownKey != hasEntity) = true
+    · -- the generated path decoder refuses the number of keys
       refine ⟨k, 0, [], hk, Nat.zero_le _, ?_, Or.inl rfl, by simp, by simp, ?_, ?_⟩
       · simp [runHandler, hpanic, respond, hkt']
       · intro ev hev
         have : ev ∈ pre := by simpa [runHandler, hpanic, respond] using hev
         exact Or.inr (hkf ev this)
       · intro _; exact ⟨hkn', by simp [reaches, hpanic]⟩
-    · have hpanic' : (f.method = .action && ownKey && !hasEntity) = false := by simpa using hpanic
+    · have hpanic' : (f.method = .action && ownKey != hasEntity) = false := by simpa using hpanic
       by_cases hdec : req.decodes.contains f.method = true
       · have hmem : f.method ∈ req.decodes := by simpa using hdec
         have hreach : reaches f ownKey hasEntity req = true := by simp [reaches, hpanic', hmem]
@@ -918,10 +951,22 @@ theorem registerAll_pfx (s : Server) : ∀ regs, (registerAll s regs).pfx = s.pf
 
 theorem slash_toList : ("/" : String).toList = ['/'] := by decide
 
-theorem serveHTTP_bare (C : Consts) (V : String → Bool) (h : Handler) (req : Req)
+theorem stripPrefix_append : ∀ (p rest : List Char), stripPrefix p (p ++ rest) = some rest
+  | [], _ => rfl
+  | c :: p, rest => by simp [stripPrefix, stripPrefix_append p rest]
+
+/-- a handler whose prefix is `pfx`, asked for `pfx` + the segments joined by `/` -/
+theorem serveHTTP_under_prefix (C : Consts) (V : String → Bool) (h : Handler) (req : Req) (urlPath : String)
+    (hne : req.path ≠ []) (hns : req.path.all noSlash = true) :
+    serveHTTP C V h ⟨String.ofList (h.pfx.toList ++ joinSlash req.path), urlPath, req⟩ = serveSegs C V h req := by
+  simp only [serveHTTP, String.toList_ofList, stripPrefix_append, splitSlash_joinSlash _ hne hns]
+
+theorem serveHTTP_bare (C : Consts) (V : String → Bool) (h : Handler) (req : Req) (urlPath : String)
     (hp : h.pfx = "/") (hne : req.path ≠ []) (hns : req.path.all noSlash = true) :
-    serveHTTP C V h ⟨"", String.ofList ('/' :: joinSlash req.path), req⟩ = serveSegs C V h req := by
-  simp only [serveHTTP, hp, slash_toList, if_true, String.toList_ofList, stripPrefix, splitSlash_joinSlash _ hne hns]
+    serveHTTP C V h ⟨String.ofList ('/' :: joinSlash req.path), urlPath, req⟩ = serveSegs C V h req := by
+  have := serveHTTP_under_prefix C V h req urlPath hne hns
+  rw [hp, slash_toList] at this
+  exact this
 
 theorem registerAll_filters (s : Server) : ∀ regs, (registerAll s regs).filters = s.filters := by
   intro regs
@@ -959,45 +1004,66 @@ def MuxResult.outcome : MuxResult → Option Outcome
   | .unmodelled => none
 
 theorem any_name_eq (r : String) : ∀ (roots : List Node),
-    (roots.any fun n => [n.name] == [r]) = (findSub r roots).isSome
+    (roots.any fun n => n.name == r) = (findSub r roots).isSome
   | [] => rfl
   | n :: rest => by
     simp only [List.any_cons, findSub, any_name_eq r rest]
     by_cases h : (n.name == r) = true
     · simp [h]
     · have h' : (n.name == r) = false := by simpa using h
-      have : ([n.name] == [r]) = false := by simpa using h'
-      simp [h', this]
+      simp [h']
 
 theorem splitSlash_slash : (splitSlash ['/']).map String.ofList = ["", ""] := by decide
 
-/-- through a ServeMux, a request for a root resource itself (one path segment) is answered as by the
-bare handler — as long as `AddToMux` registers exact patterns, this is all that reaches the handler -/
-theorem mux_single (C : Consts) (V : String → Bool) (s : Server) (r : String) (req : Req)
-    (hp : s.pfx = "/") (ht : C.muxPatternTrailingSlash = false) (hpath : req.path = [r])
-    (hr : noSlash r = true) (hdot : r ≠ "." ∧ r ≠ "..") :
-    ((addToMux C s).serve C V ⟨"", String.ofList ('/' :: r.toList), req⟩).outcome =
+/-- through a ServeMux filled by `AddToMux` (exact and subtree pattern per root resource), every
+request whose path has no empty or dot segment is answered as by the bare handler -/
+theorem mux_all (C : Consts) (V : String → Bool) (s : Server) (req : Req)
+    (hp : s.pfx = "/") (ht : C.muxPatterns = [false, true]) (hne : req.path ≠ [])
+    (hns : req.path.all noSlash = true) (hseg : ∀ x ∈ req.path, x ≠ "" ∧ x ≠ "." ∧ x ≠ "..") :
+    ((addToMux C s).serve C V ⟨String.ofList ('/' :: joinSlash req.path), String.ofList ('/' :: joinSlash req.path), req⟩).outcome =
       some (serveSegs C V s.handler req) := by
-  have hsplit : (splitSlash r.toList).map String.ofList = [r] := by
-    have : r.toList.contains '/' = false := by simpa [noSlash] using hr
-    simp [splitSlash_noSlash _ this]
-  have hbare := serveHTTP_bare C V s.handler req (by simp [Server.handler, hp]) (by simp [hpath])
-    (by simp [hpath, hr])
-  have hjoin : joinSlash req.path = r.toList := by simp [hpath, joinSlash]
-  rw [hjoin] at hbare
-  have hd1 : (r == ".") = false := by simpa using hdot.1
-  have hd2 : (r == "..") = false := by simpa using hdot.2
-  simp only [Mux.serve, String.toList_ofList, stripPrefix, if_true, hsplit, List.any_cons, List.any_nil, hd1, hd2,
-    Bool.or_self, Bool.false_eq_true, if_false, List.dropLast_singleton, addToMux, hp, slash_toList,
-    splitSlash_slash, ht, List.any_map, Function.comp_def, Bool.false_and]
-  simp only [List.filter, bne_self_eq_false, List.nil_append, any_name_eq]
+  obtain ⟨r, rest, hpath⟩ : ∃ r rest, req.path = r :: rest := by
+    cases hq : req.path with
+    | nil => exact absurd hq hne
+    | cons r rest => exact ⟨r, rest, rfl⟩
+  have hbare := serveHTTP_bare C V s.handler req (String.ofList ('/' :: joinSlash req.path))
+    (by simp [Server.handler, hp]) hne hns
+  have hsplit := splitSlash_joinSlash req.path hne hns
+  have hdots : (req.path.any fun x => x == "." || x == "..") = false := by
+    rw [List.any_eq_false]
+    intro x hx
+    have := hseg x hx
+    simp [this.2.1, this.2.2]
+  have hempty : (req.path.dropLast.any fun x => x == "") = false := by
+    rw [List.any_eq_false]
+    intro x hx
+    have := hseg x (List.dropLast_subset _ hx)
+    simp [this.1]
+  simp only [Mux.serve, String.toList_ofList, stripPrefix, if_true, hsplit, hdots, hempty, Bool.false_eq_true,
+    if_false, addToMux, hp, slash_toList, splitSlash_slash, ht]
+  simp only [List.filter, bne_self_eq_false, List.nil_append, List.any_flatMap, List.map_cons, List.map_nil,
+    List.any_cons, List.any_nil, Bool.or_false, Bool.not_false, Bool.true_and, Bool.not_true, Bool.false_and,
+    Bool.false_or, Bool.or_self, hbare]
+  -- exact pattern: the path is the root itself; subtree pattern: the path starts with the root
+  have hexact : ∀ n : Node, ([n.name] == req.path) = (n.name == r && rest.isEmpty) := by
+    intro n; rw [hpath]; cases rest <;> simp
+  have hsub : ∀ n : Node, isPrefixSegs [n.name] req.path = (n.name == r) := by
+    intro n; rw [hpath]; simp [isPrefixSegs]
+  simp only [hexact, hsub]
   cases hf : findSub r s.roots with
   | some n =>
-    have hnone : (s.roots.any fun _ => false) = false := by simp
-    simp only [Option.isSome_some, if_true, MuxResult.outcome, hbare, hnone, Bool.false_eq_true, if_false]
+    have hany : (s.roots.any fun n => n.name == r) = true := by rw [any_name_eq, hf]; rfl
+    by_cases hre : rest.isEmpty = true
+    · simp [hre, hany, MuxResult.outcome]
+    · have hre' : rest.isEmpty = false := by simpa using hre
+      simp [hre', hany, MuxResult.outcome]
   | none =>
-    have hnone : (s.roots.any fun _ => false) = false := by simp
-    simp only [Option.isSome_none, Bool.false_eq_true, if_false, MuxResult.outcome, hnone]
+    have hany : (s.roots.any fun n => n.name == r) = false := by rw [any_name_eq, hf]; rfl
+    have hany2 : ∀ b : Bool, (s.roots.any fun n => n.name == r && b) = false := by
+      intro b
+      rw [List.any_eq_false] at hany ⊢
+      intro x hx; simp [hany x hx]
+    simp only [hany, hany2, Bool.false_eq_true, if_false, MuxResult.outcome]
     simp [serveSegs, routeX, hpath, handler_roots, hf, Consts.stRootNotFound]
 
 /-! ## the specification's decision, unfolded -/
@@ -1051,7 +1117,6 @@ theorem decide_routed_iff (V : String → Bool) (roots : List Node) (req : Req) 
 
 theorem resolveWith_reject (C : Consts) (hC : Tied C) (n : Node) (rp : List Seg) (ks : List String) (hasEntity : Bool)
     (verb : Verb) (m0 : Method) (finder action : String) (ids : Bool) (st : Nat)
-    (hsimple : n.isCollection = false → hasEntity = false)
     (h : (resolveWith C n rp ks hasEntity verb m0 finder action ids).decision C = .reject st) : st = 400 := by
   have key : ∀ m, (lookupHandler C n rp ks hasEntity m finder action).decision C = .reject st → st = 400 := by
     intro m hm
@@ -1077,10 +1142,11 @@ theorem resolveWith_reject (C : Consts) (hC : Tied C) (n : Node) (rp : List Seg)
       · exact key m hm
   unfold resolveWith at h
   cases hc : n.isCollection
-  · have := hsimple hc
-    subst this
-    simp only [hc, Bool.false_eq_true, if_false, finish] at h
-    exact key _ h
+  · cases hasEntity
+    · simp only [hc, Bool.false_eq_true, if_false, finish] at h
+      exact key _ h
+    · simp only [hc, Bool.false_eq_true, if_false, if_true, finish, decision_errResp, Decision.reject.injEq] at h
+      rw [← h, hC.stEntityOnSimple]
   · simp only [hc, if_true] at h
     split at h
     · split at h
@@ -1088,10 +1154,82 @@ theorem resolveWith_reject (C : Consts) (hC : Tied C) (n : Node) (rp : List Seg)
       · simp only [finish, decision_errResp, Decision.reject.injEq] at h; rw [← h, hC.stPostNeedsHeader]
     · exact chk _ h
 
-/-- outside findings F7 and F20: a refusal is a 404 exactly when the path names no registered
-resource, and a 400 otherwise -/
+/-- the walk ends on a resource or fails with one of its two statuses -/
+theorem walk_err_status (C : Consts) (V : String → Bool) :
+    ∀ (len : Nat) (rest : List String), rest.length ≤ len →
+      ∀ (n : Node) (rp : List Seg) (ks : List String) (x : String) (st : Nat),
+      walk C V n rp ks (x :: rest) = .err st → st = C.stInvalidSegment ∨ st = C.stUnknownSub := by
+  intro len
+  induction len with
+  | zero =>
+    intro rest hlen n rp ks x st h
+    have : rest = [] := List.eq_nil_of_length_eq_zero (by omega)
+    subst this
+    cases hc : n.isCollection <;> simp [walk, hc] at h
+  | succ len ih =>
+    intro rest hlen n rp ks x st h
+    match rest, hlen, h with
+    | [], _, h => cases hc : n.isCollection <;> simp [walk, hc] at h
+    | [a], _, h =>
+      rw [walk.eq_3] at h
+      cases hc : n.isCollection
+      · simp only [hc, Bool.false_eq_true, if_false] at h
+        cases hf : findSub a n.subs with
+        | none => simp only [hf, Located.err.injEq] at h; exact Or.inr h.symm
+        | some sub =>
+          simp only [hf] at h
+          exact ih [] (by simp) sub _ _ a st h
+      · simp only [hc, if_true] at h
+        split at h
+        · simp only [Located.err.injEq] at h; exact Or.inl h.symm
+        · cases h
+    | a :: s :: rest2, hlen, h =>
+      rw [walk.eq_4] at h
+      cases hc : n.isCollection
+      · simp only [hc, Bool.false_eq_true, if_false] at h
+        cases hf : findSub a n.subs with
+        | none => simp only [hf, Located.err.injEq] at h; exact Or.inr h.symm
+        | some sub =>
+          simp only [hf] at h
+          exact ih (s :: rest2) (by simp at hlen ⊢; omega) sub _ _ a st h
+      · simp only [hc, if_true] at h
+        split at h
+        · simp only [Located.err.injEq] at h; exact Or.inl h.symm
+        · cases hf : findSub s n.subs with
+          | none => simp only [hf, Located.err.injEq] at h; exact Or.inr h.symm
+          | some sub =>
+            simp only [hf] at h
+            exact ih rest2 (by simp at hlen; omega) sub _ _ s st h
+
+/-- every refusal is a 404 or a 400 -/
+theorem reject_4xx (C : Consts) (hC : Tied C) (V : String → Bool) (roots : List Node) (req : Req) (st : Nat)
+    (h : route C V roots req = .reject st) : st = 404 ∨ st = 400 := by
+  cases hp : req.path with
+  | nil => simp [route, routeX, hp, Consts.stRootNotFound] at h; exact Or.inl h.symm
+  | cons s rest =>
+    cases hf : findSub s roots with
+    | none => simp [route, routeX, hp, hf, Consts.stRootNotFound] at h; exact Or.inl h.symm
+    | some sub =>
+      cases hw : walk C V sub [] [] (s :: rest) with
+      | err st' =>
+        simp [route, routeX, hp, hf, hw] at h
+        subst h
+        rcases walk_err_status C V rest.length rest (Nat.le_refl _) sub [] [] s st' hw with h1 | h1
+        · rw [h1, hC.stInvalidSegment]; exact Or.inr rfl
+        · rw [h1, hC.stUnknownSub]; exact Or.inl rfl
+      | found n rp ks hk =>
+        rw [route_eq_resolve C V roots req s rest sub hp hf _ _ _ _ hw] at h
+        by_cases hqv : (req.query.all fun kv => V kv.2) = true
+        · simp only [resolve, hqv, Bool.not_true, Bool.false_eq_true, if_false] at h
+          exact Or.inr (resolveWith_reject C hC _ _ _ _ _ _ _ _ _ st h)
+        · have hqv' : (req.query.all fun kv => V kv.2) = false := by simpa using hqv
+          simp [resolve, hqv'] at h
+          rw [← h, hC.stInvalidQuery]; exact Or.inr rfl
+
+/-- a refusal is a 404 exactly when the path names no registered resource, and a 400 otherwise
+(on requests that do not combine a malformed segment with an unknown resource) -/
 theorem reject_status (C : Consts) (hC : Tied C) (V : String → Bool) (roots : List Node) (req : Req) (st : Nat)
-    (hqv : queryValid V req = true) (hkv : keysValid V req = true)
+    (hs5 : malformedAndUnknown V roots req = false)
     (h : route C V roots req = .reject st) :
     st = if (locate roots req.path).isNone then 404 else 400 := by
   cases hp : req.path with
@@ -1104,22 +1242,33 @@ theorem reject_status (C : Consts) (hC : Tied C) (V : String → Bool) (roots : 
       simp [route, routeX, hp, hf, Consts.stRootNotFound] at h
       simp [locate, hf, h]
     | some sub =>
-      have hvall : ∀ x ∈ rest, V x = true := by
-        intro x hx
-        exact List.all_eq_true.mp hkv x (by rw [hp]; exact List.mem_cons_of_mem _ hx)
-      have hw := walk_eq_aux C hC V rest.length rest (Nat.le_refl _) sub [] [] s hvall
       cases hl : locateAt sub rest with
       | none =>
+        have hloc : locate roots req.path = none := by simp [locate, hp, hf, hl]
+        have hall : req.path.all V = true := by simpa [malformedAndUnknown, hloc] using hs5
+        have hvall : ∀ x ∈ rest, V x = true := by
+          intro x hx
+          exact List.all_eq_true.mp hall x (by rw [hp]; exact List.mem_cons_of_mem _ hx)
+        have hw := walk_eq_aux C hC V rest.length rest (Nat.le_refl _) sub [] [] s hvall
         simp only [hl, locatedOf] at hw
         simp [route, routeX, hp, hf, hw] at h
         simp [locate, hf, hl, h]
       | some t =>
-        simp only [hl, locatedOf, List.nil_append] at hw
-        rw [route_eq_resolve C V roots req s rest sub hp hf _ _ _ _ hw] at h
-        have hqv' : (req.query.all fun kv => V kv.2) = true := hqv
-        simp only [resolve, hqv', Bool.not_true, Bool.false_eq_true, if_false] at h
-        have := resolveWith_reject C hC _ _ _ _ _ _ _ _ _ st (locateAt_simple_nokey sub rest t hl) h
-        simp [locate, hf, hl, this]
+        have hw := walk_some C V sub rest t hl [] [] s
+        by_cases hkeys : t.keys.all V = true
+        · simp only [hkeys, if_true, List.nil_append] at hw
+          rw [route_eq_resolve C V roots req s rest sub hp hf _ _ _ _ hw] at h
+          by_cases hqv : (req.query.all fun kv => V kv.2) = true
+          · simp only [resolve, hqv, Bool.not_true, Bool.false_eq_true, if_false] at h
+            have := resolveWith_reject C hC _ _ _ _ _ _ _ _ _ st h
+            simp [locate, hf, hl, this]
+          · have hqv' : (req.query.all fun kv => V kv.2) = false := by simpa using hqv
+            simp [resolve, hqv'] at h
+            simp [locate, hf, hl, ← h, hC.stInvalidQuery]
+        · have hkeys' : t.keys.all V = false := by simpa using hkeys
+          simp only [hkeys', Bool.false_eq_true, if_false] at hw
+          simp [route, routeX, hp, hf, hw] at h
+          simp [locate, hf, hl, ← h, hC.stInvalidSegment]
 
 /-! ## counting resource calls -/
 
